@@ -13,6 +13,9 @@ mod semantics;
 #[cfg(test)]
 mod test;
 
+#[cfg(falconre_falcon_verif)]
+pub use self::semantics::verif_registers;
+
 /// The MIPS translator.
 #[derive(Clone, Debug, Default)]
 pub struct Mips;
